@@ -148,9 +148,10 @@ Facts(x) ==
      size |-> CASE x.size = "small" -> 300 [] x.size = "mid" -> 30000 [] x.size = "max" -> MaxSize [] x.size = "over" -> MaxSize + 1,
      maxsize |-> MaxSize,
      baseslack |-> 100, std |-> IsStd(x),
-     \* the fee slack of a cell is relative to the size the node RECEIVES; a non-minimal encoding is longer than
-     \* the canonical one, so relative to the canonical size (the abstract threshold) there is room
-     slack |-> (IF SameLen(x) THEN 0 ELSE 1000) + (CASE x.d = "m1" -> -1 [] x.d = "0" -> 0 [] x.d = "p1" -> 1),
+     \* the fee slack of a cell is relative to the size the node attributes to the transaction: the length of its
+     \* (canonical) encoding, however it was received (a non-minimal encoding is longer; before repair 7f2d340 the node
+     \* charged for the received length)
+     slack |-> (CASE x.d = "m1" -> -1 [] x.d = "0" -> 0 [] x.d = "p1" -> 1),
      recvslack |-> CASE x.d = "m1" -> -1 [] x.d = "0" -> 0 [] x.d = "p1" -> 1,
      wval |-> x.wval,
      balslack |-> CASE x.bal = "ok" -> 1000 [] x.bal = "exact" -> 0 [] x.bal = "short" -> -1,
@@ -159,7 +160,7 @@ Facts(x) ==
 \* the defect names of the abstract level per dimension
 Intended(x) == {CASE dm = "vub" -> (IF x.vub = "expired" THEN "expired" ELSE "notyet")
                   [] dm = "chain" -> (IF x.chain = "dup" THEN "dup" ELSE "conflict")
-                  [] dm = "d" -> (IF IsStd(x) /\ SameLen(x) THEN "fee" ELSE "open")
+                  [] dm = "d" -> (IF IsStd(x) THEN "fee" ELSE "open")
                   [] OTHER -> DefectOf[dm] : dm \in BadDims(x)} \ {"open"}
 
 Init == c \in Cases
